@@ -25,22 +25,22 @@ func BadLoop(b []byte) int {
 	}
 	return n
 }
-func BadAlias(b []byte) byte        { s := b[1:]; s[0] = 1; return b[1] }
-func BadSliceOfMut(b []byte) []byte { b[0] = 1; return b[1:] }
-func BadMapLen(m map[int]int) int   { return len(m) }
-func BadFloat(n int) uint64         { return uint64(float64(n) / 0.75) }
-func BadShift(a int, k int) int     { return a << k }
-func BadDefer(a int) (r int)        { defer func() { r++ }(); return a }
-func BadErrCompare(err error) bool  { return err == io.EOF }
-func BadClosure(a int) int          { f := func() int { return a }; return f() }
-func BadPointer(p *pair) int        { return p.a }
-func BadPtrValue(p *int) *int       { return p }
-func BadUnknownErr() error          { return errors.New("x") }
-func BadGlobalWrite(a int) int      { counter = a; return a }
-func BadAppendMut(b []byte) []byte  { b[0] = 1; return append(b, 2) }
-func BadStruct(p pair) int          { return p.a }
-func BadSlice3(b []byte) []byte     { return b[0:1:2] }
-func BadAssignMut(b []byte) int     { b[0] = 1; b = b[1:]; return len(b) }
+func BadAlias(b []byte) byte         { s := b[1:]; s[0] = 1; return b[1] }
+func BadSliceOfMut(b []byte) []byte  { b[0] = 1; return b[1:] }
+func BadMapDelete(m map[int]int) int { delete(m, 1); return len(m) }
+func BadFloat(n int) uint64          { return uint64(float64(n) / 0.75) }
+func BadShift(a int, k int) int      { return a << k }
+func BadDefer(a int) (r int)         { defer func() { r++ }(); return a }
+func BadErrCompare(err error) bool   { return err == io.EOF }
+func BadClosure(a int) int           { f := func() int { return a }; return f() }
+func BadPointer(p *pair) int         { return p.a }
+func BadPtrValue(p *int) *int        { return p }
+func BadUnknownErr() error           { return errors.New("x") }
+func BadGlobalWrite(a int) int       { counter = a; return a }
+func BadAppendMut(b []byte) []byte   { b[0] = 1; return append(b, 2) }
+func BadStruct(p pair) int           { return p.a }
+func BadSlice3(b []byte) []byte      { return b[0:1:2] }
+func BadAssignMut(b []byte) int      { b[0] = 1; b = b[1:]; return len(b) }
 func BadGoto(a int) int {
 	i := 0
 loop:
@@ -156,8 +156,8 @@ func BadRecvValue(p *rec2) *rec2 { return p }
 
 // phase 3
 func okStore2(b []byte, c []byte) int { b[0] = c[0]; return 1 }
-func BadSubSliceAlias(b []byte) int  { return okStore2(b[1:], b[0:2]) }
-func BadSubSliceHigh(b []byte) int   { return okStore(b[1:3], 0, 1) }
+func BadSubSliceAlias(b []byte) int   { return okStore2(b[1:], b[0:2]) }
+func BadSubSliceHigh(b []byte) int    { return okStore(b[1:3], 0, 1) }
 func BadSwitchMulti(a int) int {
 	switch {
 	case a > 3, a < 0:
@@ -169,4 +169,50 @@ func (p *rec2) okBumpR(a int) int { p.a += a; return p.a }
 func (p *rec2) BadRecvOrder() int { return p.a + p.okBumpR(1) }
 func BadOtherRecv(p *rec2, a int) int {
 	return p.okBumpR(a)
+}
+
+// map range statements and nil interface values (phase 3)
+func BadRangeInLoop(m map[int]int, n int) int {
+	s := 0
+	for i := 0; i < n; i++ {
+		for k := range m {
+			s += k
+		}
+	}
+	return s
+}
+func BadRangeAssign(m map[int]int) int {
+	for k := range m {
+		m[k+1] = 0
+	}
+	return len(m)
+}
+func BadRangeNoDefine(m map[int]int) int {
+	k := 0
+	for k = range m {
+	}
+	return k
+}
+func okRange(m map[int]int) int {
+	s := 0
+	for k := range m {
+		s += k
+	}
+	return s
+}
+func BadRangeCallInLoop(m map[int]int, n int) int {
+	s := 0
+	for i := 0; i < n; i++ {
+		s += okRange(m)
+	}
+	return s
+}
+func okUse(g getter) int { b, _ := g.Get(); return len(b) }
+func BadNilIface() int   { return okUse(nil) }
+func BadRangeString(s string) int {
+	n := 0
+	for range s {
+		n++
+	}
+	return n
 }
